@@ -155,6 +155,8 @@ type kase struct {
 	extraKey []string // key:n | key:s
 	stall    int      // >= 0: schedule — the command's handler is held at its first storage access until the executor's RPC wait has
 	//                   timed out and a second command from connection `stall` is in flight, then resumes (-1: no such schedule)
+	conc   int    // >= 0: the same (read-only) command is sent over and over from connection `conc` concurrently (-1: none)
+	rounds int    // how many times the command itself is sent in that case
 	faults uint64 // bit i: the i-th read (during the command) of the named mapping's main record fails transiently
 	conns  []connSpec
 	maps   []mapSpec
@@ -186,6 +188,12 @@ func parseCase(s string) (*kase, error) {
 	if i+1 < len(t) && t[i] == "z" {
 		k.stall = atoi(t[i+1])
 		i += 2
+	}
+	k.conc = -1
+	if i+2 < len(t) && t[i] == "y" {
+		k.conc = atoi(t[i+1])
+		k.rounds = atoi(t[i+2])
+		i += 3
 	}
 	if i+1 < len(t) && t[i] == "q" {
 		v, err := strconv.ParseUint(t[i+1], 10, 64)
@@ -1366,8 +1374,46 @@ func runOnce(k *kase, claimed bool) string {
 				Packet: &packet.TransferPacket{PacketType: pt, CommandPacket: cmd}})
 		}
 		stalled := false
+		concurrent := k.conc >= 0 && k.conc < len(k.conns) && k.conc != k.from && k.rounds > 0 && readOnlyType(k) && !k.noExec
 		if gk := w.stallKey(k); gk != "" && k.stall >= 0 && k.stall < len(k.conns) && k.stall != k.from {
 			stalled, err = w.runStalled(k, gk, send)
+		} else if concurrent {
+			// two (and two more) goroutines: the command from its connection, the same command type from connection k.conc,
+			// over and over at the same time; every answer is judged
+			var stop int32
+			var wg sync.WaitGroup
+			other := func() {
+				defer wg.Done()
+				for atomic.LoadInt32(&stop) == 0 {
+					_ = w.smOf(k.conc).HandlePacket(&types.StreamPacket{ConnectionID: connID(k.conc), Timestamp: time.Now(),
+						Packet: &packet.TransferPacket{PacketType: packet.JsonCommand, CommandPacket: &packet.CommandPacket{
+							CommandType: packet.CommandType(k.ctype), CommandId: fmt.Sprintf("cmd-conc-%d", atomic.AddInt64(&cmdSeq, 1)),
+							CommandBody: cmd.CommandBody}}})
+				}
+			}
+			const side = 12 // goroutines per connection
+			wg.Add(side)
+			for g := 0; g < side; g++ {
+				go other()
+			}
+			var wg2 sync.WaitGroup
+			var errMu sync.Mutex
+			for g := 0; g < side; g++ {
+				wg2.Add(1)
+				go func() {
+					defer wg2.Done()
+					for r := 0; r < k.rounds/side+1; r++ {
+						if e := send(); e != nil {
+							errMu.Lock()
+							err = e
+							errMu.Unlock()
+						}
+					}
+				}()
+			}
+			wg2.Wait()
+			atomic.StoreInt32(&stop, 1)
+			wg.Wait()
 		} else {
 			err = send()
 		}
@@ -1440,10 +1486,19 @@ func runOnce(k *kase, claimed bool) string {
 		chg = append(chg, diffOne("d", w.domIDs, before.doms, after.doms, before.domO, after.domO)...)
 		var dlv, gone []string
 		secondRespSeen := false
+		concLeak := false
 		for i, fs := range w.streams {
 			{
 				for _, p := range fs.snapshot() {
 					if p.ptype.IsCommandResp() {
+						if concurrent && i == k.conc {
+							// the other connection's own answers: judged against ITS client (a leak is reported as a delivery)
+							if w.leaksTo(k, i, p.body) && !concLeak {
+								concLeak = true
+								dlv = append(dlv, fmt.Sprintf("%d:leak:-", i))
+							}
+							continue
+						}
 						if stalled && i == k.stall && !secondRespSeen {
 							secondRespSeen = true // the second command's own answer
 							continue
@@ -1640,6 +1695,41 @@ func withFaults(cs string, plan int) string {
 	return strings.Replace(cs, " W ", fmt.Sprintf(" q %d W ", plan), 1)
 }
 
+// readOnlyType: commands that only read (safe to repeat and to run concurrently with themselves)
+func readOnlyType(k *kase) bool {
+	switch packet.CommandType(k.ctype) {
+	case packet.ConfigGet, packet.MappingList, packet.MappingGet, packet.HTTPDomainList, packet.ConnectionCodeList:
+		return !k.bad && !k.resp && !k.direct
+	}
+	return false
+}
+
+// leaksTo: does this text show connection i the id / secret of a mapping, the code or the domain id of an object its client
+// is no party of?
+func (w *world) leaksTo(k *kase, i int, txt string) bool {
+	id := k.conns[i].cid
+	if k.conns[i].kind != 'A' {
+		id = 0
+	}
+	for j, m := range k.maps {
+		if j < len(w.mapIDs) && (id == 0 || (m.listen != id && m.target != id)) &&
+			(strings.Contains(txt, `"`+w.mapIDs[j]+`"`) || (w.mapKeys[j] != "" && strings.Contains(txt, w.mapKeys[j]))) {
+			return true
+		}
+	}
+	for j, c := range k.codes {
+		if j < len(w.codes) && (id == 0 || c.target != id) && strings.Contains(txt, w.codes[j]) {
+			return true
+		}
+	}
+	for j, o := range k.doms {
+		if j < len(w.domIDs) && (id == 0 || o != id) && strings.Contains(txt, `"`+w.domIDs[j]+`"`) {
+			return true
+		}
+	}
+	return false
+}
+
 // stallKey: the storage key whose first access holds the command's handler (commands that name one object).
 func (w *world) stallKey(k *kase) string {
 	if k.bad || k.resp || k.direct || k.noExec {
@@ -1716,11 +1806,31 @@ func (w *world) runStalled(k *kase, gk string, send func() error) (bool, error) 
 				CommandType: packet.HTTPDomainCheckSubdomain, CommandId: fmt.Sprintf("cmd-second-%d", atomic.AddInt64(&cmdSeq, 1)),
 				CommandBody: `{"subdomain":"second","base_domain":"tunnox.net"}`}}})
 	}()
+	entered := false
 	select {
 	case err := <-ret:
-		held <- false
-		w.stor.disarmGates()
-		return false, err // refused before touching the object: no stall
+		// the wait is over before the gate was reached: either the command was refused before touching the object (no stall),
+		// or — on a busy machine — the 25 ms wait gave up before the handler got that far: then it is still on its way
+		if err == nil || !strings.Contains(err.Error(), "timeout") {
+			held <- false
+			w.stor.disarmGates()
+			return false, err
+		}
+		deadline := time.Now().Add(5 * time.Second)
+		for !entered && w.respCount() <= base && time.Now().Before(deadline) {
+			select {
+			case <-g1.entered:
+				entered = true
+			default:
+				runtime.Gosched()
+			}
+		}
+		if !entered {
+			held <- false
+			w.stor.disarmGates()
+			return true, err // answered late, never held: report what the command came to
+		}
+		ret <- err
 	case <-g1.entered:
 	}
 	// the first handler is held; its wait (25 ms) will give up. The second command gets a long wait: it is in flight, not
@@ -1926,6 +2036,27 @@ func gen(out *vc.Out, r *vc.Rand, thorough bool) {
 					out.Count("small-scope:code-domain-ownership")
 				}
 			}
+		}
+	}
+	// 1i. concurrency: the same read-only command from TWO connections at once (12 goroutines each, many rounds): handlers are
+	//     singletons shared by all connections; every answer is judged against the asking connection's own client
+	withConc := func(cs string, j, rounds int) string {
+		return strings.Replace(cs, " W ", fmt.Sprintf(" y %d %d W ", j, rounds), 1)
+	}
+	concWorld := worldStr([]string{"A1001", "A1002", "A1003", "U0"}, []string{"1001:1002:s:a", "1002:1001:t:a", "1003:1003:t:i"},
+		[]string{"1001:0", "1003:0"}, []string{"1001", "1003"})
+	big, small := 60000, 3000
+	if thorough {
+		big, small = 200000, 20000
+	}
+	execCase(out, withConc(caseStr(50, false, 0, 0, 0, "-", false, 0, 0, 0, 0, concWorld), 2, big))
+	execCase(out, withConc(caseStr(50, false, 2, 0, 0, "-", false, 0, 0, 0, 0, concWorld), 1, big))
+	execCase(out, withConc(caseStr(50, false, 1, 0, 0, "-", false, 0, 0, 0, 0, concWorld), 2, big))
+	execCase(out, withConc(caseStr(50, false, 2, 0, 0, "-", false, 0, 0, 0, 0, concWorld), 0, big))
+	for _, ct := range []int{50, 74, 75, 87, 71} {
+		for _, pair := range [][2]int{{0, 2}, {2, 0}, {3, 0}, {0, 3}} {
+			execCase(out, withConc(caseStr(ct, false, pair[0], 0, 0, "-", false, 0, 0, 0, 0, concWorld), pair[1], small))
+			out.Count("concurrency:two-connections-same-command")
 		}
 	}
 	// 1h. schedules: the handler of a duplex command is held at its first access of the named object until the executor's RPC
